@@ -53,7 +53,29 @@ Definition expected_key (c : case) (k : Z) : list (elem (list Z)) :=
     end in
   go [] (c_in c).
 
+(** the same round by round: what a key's windows produce from the elements of one iteration
+    comes out BEFORE that iteration's FlushAndRestart / Terminate (tail group included) *)
+Fixpoint split_rounds {X} (cur : list (elem X)) (l : list (elem X)) : list (list (elem X)) :=
+  match l with
+  | [] => [rev cur]
+  | FAR :: l' | Terminate :: l' => rev cur :: split_rounds [] l'
+  | e :: l' => split_rounds (e :: cur) l'
+  end.
+Definition rounds_ok (c : case) : bool :=
+  let ins := split_rounds [] (c_in c) in
+  let outs := split_rounds [] (c_out c) in
+  Nat.eqb (length ins) (length outs) &&
+  forallb (fun r =>
+    let closed := Nat.ltb (S r) (length ins) in     (* the last segment has no end marker *)
+    forallb (fun k =>
+      list_eqb (elem_eqb (list_eqb Z.eqb)) (proj_out k (nth r outs []))
+        (if closed then expected_round c k (nth r ins [])
+         else map wres_elem (map (gres acc0 proc outf) (groups (c_size c) (c_slide c) (key_data k (nth r ins []))))))
+      (keys_of (c_in c)))
+    (seq 0 (length ins)).
+
 Definition prop_ok (c : case) : bool :=
+  rounds_ok c &&
   forallb (fun k =>
     list_eqb (elem_eqb (list_eqb Z.eqb)) (proj_out k (c_out c)) (expected_key c k))
     (keys_of (c_in c))
